@@ -119,7 +119,9 @@ func facts(repo string, w io.Writer) error {
 	if err != nil {
 		return err
 	}
-	rmut := map[string]int{"rs.fromBkt.Iter": 1, "rs.ensureObjectReplicated": 1, "rs.toBkt.Upload": 1, "rs.toBkt.Delete": 1}
+	// every existence test the function itself makes on the target is listed too: the decision to copy an
+	// object belongs to ensureObjectReplicated alone (no early-out in ensureBlockIsReplicated)
+	rmut := map[string]int{"rs.fromBkt.Iter": 1, "rs.ensureObjectReplicated": 1, "rs.toBkt.Upload": 1, "rs.toBkt.Delete": 1, "rs.toBkt.Exists": 1, "rs.fromBkt.Exists": 1}
 	if err := emit(rs, "replicate_calls", "replicationScheme.ensureBlockIsReplicated", rmut); err != nil {
 		return err
 	}
@@ -304,6 +306,7 @@ func run(raw json.RawMessage) (common.Case, error) {
 		}
 		rb := cu.NewRecBucket(inner[side])
 		rb.CrashAt = st.Crash
+		rb.LexIter = st.Lex // the bucket lists in plain lexicographic order (S3/GCS) instead of the in-memory order
 		pre := inner[side].Objects()
 		id := cu.BlockULID(st.Block)
 		var f func() error
@@ -324,6 +327,7 @@ func run(raw json.RawMessage) (common.Case, error) {
 			}
 		case "replicate":
 			from := cu.NewRecBucket(inner[0])
+			from.LexIter = st.Lex
 			f = func() error { return replicate.VerifC28EnsureBlockIsReplicated(ctx, logger, from, rb, id) }
 		default:
 			return c, fmt.Errorf("step %d: bad action %q", si, st.Act)
@@ -525,6 +529,13 @@ func gen(r *rand.Rand, tier string, n int) []any {
 					}
 					sort.Ints(st.Sched)
 				}
+			}
+			if st.Act == "replicate" && r.Intn(6) == 0 {
+				// replicate, a deletion of the TARGET block on a lexicographically listing bucket dies
+				// at some point, replicate again
+				in.Steps = append(in.Steps, st,
+					stepIn{Act: "delete", Side: 1, Block: st.Block, Crash: r.Intn(maxChunks + 4), Lex: true})
+				st.Crash = -1
 			}
 			in.Steps = append(in.Steps, st)
 			// a cut action is usually retried
